@@ -205,7 +205,64 @@ def check_append_only_runs():
     return None
 
 
+def check_subclasses_and_atomic_commit():
+    """(a) arrays of ndarray subclasses (masked arrays, memmaps, record arrays - what a vectorised likelihood may return) are copied by
+    setters, commits and getters like plain arrays; (b) with warnings turned into errors a commit is all-or-nothing: whatever happens,
+    every recorded quantity holds the same number of batches afterwards"""
+    import warnings as _w, tempfile, os
+    rng = np.random.RandomState(3)
+    tmp = tempfile.mkdtemp(prefix="c17_")
+    try:
+        mm = np.memmap(os.path.join(tmp, "l.dat"), dtype=float, mode="w+", shape=(5,))
+        mm[:] = rng.randn(5)
+        flavours = (("masked array", np.ma.masked_array(rng.randn(5), mask=[0, 0, 1, 0, 0])), ("memmap", mm),
+                    ("ndarray subclass view", rng.randn(5).view(type("Tagged", (np.ndarray,), {}))))
+        for fname, arr in flavours:
+            sm = StateManager(2)
+            keep = np.array(np.asarray(arr), copy=True)
+            sm.update_current({"u": rng.rand(5, 2), "x": rng.rand(5, 2), "logl": arr, "beta": 0.0, "logz": 0.0, "iter": 0, "calls": 0, "assignments": np.zeros(5, dtype=int)})
+            sm.commit_current_to_history()
+            np.asarray(arr)[...] = 777.0
+            got = np.asarray(sm.get_history("logl", index=0), dtype=float)
+            cur = np.asarray(sm.get_current("logl"), dtype=float)
+            if not (np.array_equal(got, keep) and np.array_equal(cur, keep)):
+                return f"a log-likelihood array handed over as a {fname} is stored by reference: editing the caller's array changed the committed batch / current state"
+            out = sm.get_history("logl", index=0)
+            try:
+                np.asarray(out)[...] = -5.0
+            except (ValueError, TypeError):
+                pass
+            if not np.array_equal(np.asarray(sm.get_history("logl", index=0), dtype=float), keep):
+                return f"get_history hands out the internal {fname} batch by reference"
+    finally:
+        import shutil
+        shutil.rmtree(tmp, True)
+    for order in ((4, 6), (6, 4)):
+        sm = StateManager(2)
+        with _w.catch_warnings():
+            _w.simplefilter("error")
+            for t, n in enumerate(order):
+                sm.update_current({"u": rng.rand(n, 2), "x": rng.rand(n, 2), "logl": rng.randn(n), "beta": 0.1 * t, "logz": 0.0, "iter": t, "calls": n,
+                                   "assignments": np.zeros(n, dtype=int), "ess": 1.0, "acceptance": 0.5, "steps": 1, "efficiency": 1.0})
+                try:
+                    sm.commit_current_to_history()
+                except Warning:
+                    pass
+                lens = {k: len(v) for k, v in sm._history.items() if len(v) or k in ("u", "x", "logl", "beta")}
+                if len(set(lens.values())) > 1:
+                    return (f"with warnings turned into errors, committing a batch of {n} particles after one of {order[0]} left the recorded quantities with different "
+                            f"numbers of batches: {lens}")
+    return None
+
+
 def main():
+    try:
+        r = check_subclasses_and_atomic_commit()
+    except Exception as e:
+        r = f"subclass / atomic-commit scenario raised {type(e).__name__}: {e}"
+    if r:
+        print(json.dumps({"reproduced": True, "detail": r, "input": {"probe": "ndarray subclasses / commit under warnings-as-errors"}}))
+        return
     r = check_append_only_runs()
     if r:
         print(json.dumps({"reproduced": True, "detail": r, "input": {"probe": "append-only over sampler iterations"}}))
